@@ -8,6 +8,19 @@ From ChessV Require Import Bits Types Board Moves Rays MoveGen Rules Abs San Geo
 Import ListNotations.
 Open Scope string_scope.
 Open Scope N_scope.
+#[local] Arguments N.add : simpl never.
+#[local] Arguments N.sub : simpl never.
+#[local] Arguments N.mul : simpl never.
+#[local] Arguments N.eqb : simpl never.
+#[local] Arguments N.ltb : simpl never.
+#[local] Arguments N.leb : simpl never.
+#[local] Arguments N.shiftl : simpl never.
+#[local] Arguments N.shiftr : simpl never.
+#[local] Arguments N.land : simpl never.
+#[local] Arguments N.lor : simpl never.
+#[local] Arguments N.lxor : simpl never.
+#[local] Arguments N.ldiff : simpl never.
+#[local] Arguments N.testbit : simpl never.
 
 (* ------------------------------------------------------------------ *)
 (* square names                                                        *)
